@@ -98,3 +98,34 @@ package ecs
 //@   loop 1 fires doc: (!o.hasComps || obsCompsIn(o, *mask)) && obsWithOK(o, *mask)
 //@   modifies nothing
 //@   callbackframe
+
+// ---- aggregates used by the early-outs ------------------------------------------------------
+//
+// What makes an early-out sound (and firing independent of the other observers): when the
+// wildcard flag of an event is false, every registered observer of that event restricts the
+// respective mask and its mask is contained in the per-event union.
+
+//@ spec func obsWithAggOK(m *observerManager, e uint8) bool :=
+//@   m.anyNoWith[e] || (forall k int :: 0 <= k && k < len(m.observers[e]) ==>
+//@        m.observers[e][k].hasWith && (forall i uint8 :: mhas(m.observers[e][k].withMask, i) ==> mhas(m.allWith[e], i)))
+//@ spec func obsCompsAggOK(m *observerManager, e uint8) bool :=
+//@   m.anyNoComps[e] || (forall k int :: 0 <= k && k < len(m.observers[e]) ==>
+//@        m.observers[e][k].hasComps && (forall i uint8 :: mhas(m.observers[e][k].compsMask, i) ==> mhas(m.allComps[e], i)))
+
+//@ pred obsRegistered(m *observerManager, o *Observer) :=
+//@      o != nil && __has(m.indices, o.id) && uint64(m.indices[o.id]) < uint64(len(m.observers[o.event]))
+//@   && m.observers[o.event][m.indices[o.id]] == &o.observerData
+//@   && (forall k int :: 0 <= k && k < len(m.observers[o.event]) ==> m.observers[o.event][k] != nil)
+
+//@ func (*observerManager).RemoveObserver
+//@   serves C08
+//@   requires obsShape(m) && obsRegistered(m, o) && o.id != maxObserverID
+//@   loop 1 invariant with: obsShape(m) && (m.anyNoWith[o.event] || (forall k int :: 0 <= k && k < __idx ==>
+//@        m.observers[o.event][k].hasWith && (forall i uint8 :: mhas(m.observers[o.event][k].withMask, i) ==> mhas(allWith, i))))
+//@   loop 1 invariant nonnil: forall k int :: 0 <= k && k < len(m.observers[o.event]) ==> m.observers[o.event][k] != nil
+//@   loop 2 invariant comps: obsShape(m) && (m.anyNoComps[o.event] || (forall k int :: 0 <= k && k < __idx ==>
+//@        m.observers[o.event][k].hasComps && (forall i uint8 :: mhas(m.observers[o.event][k].compsMask, i) ==> mhas(allComps, i))))
+//@   loop 2 invariant nonnil: forall k int :: 0 <= k && k < len(m.observers[o.event]) ==> m.observers[o.event][k] != nil
+//@   loop 2 invariant with-done: obsWithAggOK(m, uint8(o.event))
+//@   ensures  with-aggregate: obsWithAggOK(m, uint8(old(o.event)))
+//@   ensures  comps-aggregate: old(o.event) != OnCreateEntity && old(o.event) != OnRemoveEntity ==> obsCompsAggOK(m, uint8(old(o.event)))
